@@ -15,6 +15,7 @@
 #include "qfield.h"
 #include <recint/recint.h>
 #include "c18_values.h"
+#include "modular-extended.h"
 #include <thread>
 #include <atomic>
 #include <unistd.h>
@@ -90,6 +91,18 @@ static Any* make18(const std::string& cls, int P) {
         R::domains dm(n); for (int k = 0; k < n; ++k) dm[k] = Modular<double>((double)PS[P][k]);
         return new Box<R, pr_rns_const<R> >(R(dm));
     }
+    // rarely instantiated storage types / specialisations that are not among the history classes of c16_probes.h
+    static const long S8[] = {7, 11, 5, 3}, U8[] = {7, 13, 11, 3}, S16[] = {7, 101, 181, 3}, BIG[] = {7, 101, 46337, 3};
+    if (cls == "Modular<int8_t>") return new RINGBOX(Modular<int8_t>)(Modular<int8_t>((int8_t)S8[P]));
+    if (cls == "Modular<uint8_t>") return new RINGBOX(Modular<uint8_t>)(Modular<uint8_t>((uint8_t)U8[P]));
+    if (cls == "Modular<int16_t>") return new RINGBOX(Modular<int16_t>)(Modular<int16_t>((int16_t)S16[P]));
+    if (cls == "Modular<uint16_t>") return new RINGBOX(Modular<uint16_t>)(Modular<uint16_t>((uint16_t)S16[P]));
+    if (cls == "Modular<int32_t,int64_t>") { typedef Modular<int32_t, int64_t> M; return new RINGBOX(M)(M((int32_t)(P == 2 ? 2147483629L : BIG[P]))); }
+    if (cls == "Modular<uint32_t,uint64_t>") { typedef Modular<uint32_t, uint64_t> M; return new RINGBOX(M)(M((uint32_t)(P == 2 ? 4294967291UL : BIG[P]))); }
+    if (cls == "Modular<float,double>") { typedef Modular<float, double> M; return new RINGBOX(M)(M((float)(P == 2 ? 8388593 : BIG[P]))); }
+    if (cls == "Modular<ruint<6>>") { typedef Modular<RecInt::ruint<6> > M; return new RINGBOX(M)(M(RecInt::ruint<6>((uint64_t)(P == 2 ? 4294967291UL : BIG[P])))); }
+    if (cls == "ModularExtended<double>") { typedef ModularExtended<double> M; return new RINGBOX(M)(M((double)(P == 2 ? 1125899906842597.0 : BIG[P]))); }
+    if (cls == "ModularExtended<float>") { typedef ModularExtended<float> M; return new RINGBOX(M)(M((float)(P == 2 ? 4194301 : BIG[P]))); }
     return make(cls, P);
 }
 
